@@ -25,6 +25,7 @@ from calmjs.parse.ruletypes import (
 from calmjs.parse.ruletypes import (
     Attr,
     CommentsAttr,
+    LabelAttr,
     Iter,
     Text,
     Optional,
@@ -191,12 +192,12 @@ definitions = {
     'Continue': (
         CommentsAttr(),
         Text(value='continue'), Optional('identifier', (
-            RequiredSpace, Attr(attr='identifier'))), EndStatement,
+            RequiredSpace, LabelAttr(attr='identifier'))), EndStatement,
     ),
     'Break': (
         CommentsAttr(),
         Text(value='break'), Optional('identifier', (
-            RequiredSpace, Attr(attr='identifier'),)), EndStatement,
+            RequiredSpace, LabelAttr(attr='identifier'),)), EndStatement,
     ),
     'Return': (
         CommentsAttr(),
@@ -214,7 +215,7 @@ definitions = {
     ),
     'Label': (
         CommentsAttr(),
-        Attr('identifier'), Text(value=':'), Space, Attr('statement'),
+        LabelAttr('identifier'), Text(value=':'), Space, Attr('statement'),
     ),
     'Switch': (
         CommentsAttr(),
